@@ -85,7 +85,9 @@ func (c *Cache) AddEntry(sname types.PrincipalName, a types.Authenticator) {
 
 // addEntry adds an entry to the Cache. The caller must hold the write lock.
 func (c *Cache) addEntry(sname types.PrincipalName, a types.Authenticator) {
-	ct := a.CTime.Add(time.Duration(a.Cusec) * time.Microsecond)
+	// UTC: a time.Time used in a map key compares its location pointer too, and a client time that was encoded with
+	// a zone offset decodes with a new location on every presentation.
+	ct := a.CTime.Add(time.Duration(a.Cusec) * time.Microsecond).UTC()
 	e := replayCacheEntry{
 		presentedTime: time.Now().UTC(),
 		sName:         sname,
@@ -126,7 +128,7 @@ func (c *Cache) ClearOldEntries(d time.Duration) {
 
 // IsReplay tests if the Authenticator provided is a replay within the duration defined. If this is not a replay add the entry to the cache for tracking.
 func (c *Cache) IsReplay(sname types.PrincipalName, a types.Authenticator) bool {
-	ct := a.CTime.Add(time.Duration(a.Cusec) * time.Microsecond)
+	ct := a.CTime.Add(time.Duration(a.Cusec) * time.Microsecond).UTC()
 	// The look-up and the insert must be one atomic step: otherwise concurrent presentations of the same
 	// authenticator can all miss the look-up and all be accepted, and an insert can be lost to a concurrent clean-up.
 	c.mux.Lock()
